@@ -151,6 +151,11 @@ def h_rename_replace(ctx):
         ob, nb = w.bits_of([old]), w.bits_of([new])
         u = w.pred(f'U_{old}', [b for b in allbits if b not in nb])
         r = ctx.call(let, c, {old: new}, u, label='let')
+        # the target variable may occur in the predicate as well
+        u2 = w.pred(f'U2_{old}', allbits)
+        r2 = ctx.call(let, c, {old: new}, u2, label='let')
+        w.oblige(f'let({old} -> {new}).post: substitution also when the new variable already occurs in the predicate',
+                 spec.equiv(w, w.term(r2), spec.subst(w.term(u2), list(zip(w.zs(ob), w.zs(nb))))))
         w.oblige(f'let({old} -> {new}).post: same-typed variable substituted, bit by bit',
                  spec.equiv(w, w.term(r), spec.subst(w.term(u), list(zip(w.zs(ob), w.zs(nb))))))
         w.oblige('let(rename).post: support loses the old identifier',
